@@ -1629,30 +1629,7 @@ fn run() {
     let judge_snapshot_withdraw = params.flag("snapwd");
     let mut rt = new_runtime();
 
-    if part == "all" || part == "streams" {
-        for idx in 0..streams {
-            if !rep.borrow().in_budget() {
-                break;
-            }
-            let log = RefCell::new(Vec::new());
-            let mut srng = rng.fork();
-            let r = guard(|| {
-                let cx = Ctx {
-                    rep: &rep,
-                    log: &log,
-                    tables: Arc::new(TableManager::new(1)),
-                    deadline: Instant::now() + Duration::from_secs(30),
-                    big: idx >= 60,
-                    judge_snapshot_withdraw,
-                };
-                rt.block_on(run_stream(&cx, &mut srng, idx));
-            });
-            if let Err(p) = r {
-                report_panic(&rep, &log, p);
-                rt = new_runtime();
-            }
-        }
-    }
+    // the cheap loopback part first so a tight budget cannot starve it
     if part == "all" || part == "cancel" {
         for _ in 0..cancel_cases {
             if !rep.borrow().in_budget() {
@@ -1670,6 +1647,30 @@ fn run() {
                     judge_snapshot_withdraw: false,
                 };
                 rt.block_on(run_cancel_case(&cx, &mut srng));
+            });
+            if let Err(p) = r {
+                report_panic(&rep, &log, p);
+                rt = new_runtime();
+            }
+        }
+    }
+    if part == "all" || part == "streams" {
+        for idx in 0..streams {
+            if !rep.borrow().in_budget() {
+                break;
+            }
+            let log = RefCell::new(Vec::new());
+            let mut srng = rng.fork();
+            let r = guard(|| {
+                let cx = Ctx {
+                    rep: &rep,
+                    log: &log,
+                    tables: Arc::new(TableManager::new(1)),
+                    deadline: Instant::now() + Duration::from_secs(30),
+                    big: idx >= 60,
+                    judge_snapshot_withdraw,
+                };
+                rt.block_on(run_stream(&cx, &mut srng, idx));
             });
             if let Err(p) = r {
                 report_panic(&rep, &log, p);
